@@ -171,7 +171,9 @@ def w_objects(arg):
     # values: any printable text incl. blanks inside and the separator sequence ': ' itself (RFC 4880 6.2: the FIRST colon-space ends the key);
     # an empty value; a few fixed awkward ones
     val = st.one_of(st.text(alphabet=st.characters(min_codepoint=32, max_codepoint=126), min_size=0, max_size=40).map(lambda v: v.strip()),
-                    st.sampled_from(['Re: your key', 'a: b: c', '', 'x' * 60, 'https://example.org/?a=1: 2', '=abcd', '-----']))
+                    st.sampled_from(['Re: your key', 'a: b: c', '', 'x' * 60, 'https://example.org/?a=1: 2', '=abcd', '-----',
+                                     # RFC 4880 6.2: header values are UTF-8 text
+                                     'Gr\u00fc\u00dfe', 'Zo\u00eb \u65e5\u672c', 'na\u00efve: caf\u00e9']))
     hdr = st.lists(st.tuples(st.sampled_from(HEADER_KEYS), val), max_size=3, unique_by=lambda kv: kv[0])
     strat = st.fixed_dictionaries({'i': st.integers(0, 10000), 'headers': hdr, 'form': st.sampled_from(['str', 'bytes', 'bytearray', 'crlf', 'surround'])})
 
@@ -203,7 +205,7 @@ def w_objects(arg):
         if c['form'] == 'crlf':
             inp = text.replace('\n', '\r\n')
         elif c['form'] == 'surround':
-            inp = 'preamble line\n\n' + text + '\ntrailer\n'
+            inp = ['preamble line\n\n', 'Gr\u00fc\u00dfe,\n\n'][c['i'] % 2] + text + '\ntrailer\n'
         elif c['form'] == 'bytes':
             inp = text.encode('utf-8')
         elif c['form'] == 'bytearray':
@@ -260,7 +262,7 @@ def w_objects(arg):
                     continue
                 for alt in (chr(ord(text[pos]) | 0x80), '\x0c', '\x00')[k:k + 1]:
                     bad = text[:pos] + alt + text[pos + 1:]
-                    inp2 = bad.encode('latin-1') if c['form'] in ('bytes', 'bytearray') else bad
+                    inp2 = bad.encode('utf-8') if c['form'] in ('bytes', 'bytearray') else bad
                     try:
                         with warnings.catch_warnings(record=True) as w2:
                             warnings.simplefilter('always')
